@@ -379,8 +379,30 @@ class GrammarGen:
             self.stmt_list(p, depth + 1, nest + 1)
             self.nl(p, depth)
             self.mark(p, depth, "closer")
-            self.emit(p, r.choice(["finally", "except"]))
-            self.stmt_list(p, depth + 1, nest + 1)
+            kw = r.choice(["finally", "except", "except"])
+            self.emit(p, kw)
+            if kw == "except" and r.random() < 0.5:
+                # exception handlers: `on E: T do <statement>` (body one level deeper when it is a compound statement), an optional else part
+                for _ in range(r.randrange(1, 3)):
+                    self.nl(p, depth + 1)
+                    self.mark(p, depth + 1, "stmt")
+                    self.emit(p, "on " + r.choice(["E: ", ""]) + r.choice(["Exception", "EFoo", "EAbort"]) + " do ")
+                    if r.random() < 0.5:
+                        self.mark(p, depth + 1, "ctlbegin")
+                        self.emit(p, "begin")
+                        self.stmt_list(p, depth + 2, nest + 1)
+                        self.nl(p, depth + 1)
+                        self.mark(p, depth + 1, "closer")
+                        self.emit(p, "end;")
+                    else:
+                        self.emit(p, self.simple_stmt() + ";")
+                if r.random() < 0.3:
+                    self.nl(p, depth)
+                    self.mark(p, depth, "closer")
+                    self.emit(p, "else")
+                    self.stmt_list(p, depth + 1, nest + 1)
+            else:
+                self.stmt_list(p, depth + 1, nest + 1)
             self.nl(p, depth)
             self.mark(p, depth, "closer")
             self.emit(p, "end")
